@@ -79,6 +79,41 @@ def _norm(x):
     return s
 
 
+# ---- trace seam: while a DiffHarness runs, every Request gets a "trace" extension (a plain function for the sync
+# variant, a coroutine function for the async one, as the documentation requires) that records the event names; the
+# two variants must emit the same events in the same order.  Installed by rebinding Request.__init__ in this process.
+_TRACE = [None]          # None | (mode, sink)
+
+
+def _install_trace_seam():
+    from httpcore import _models
+    if getattr(_models.Request.__init__, "_mc_trace", False):
+        return
+    orig = _models.Request.__init__
+
+    def init(self, *a, **kw):
+        orig(self, *a, **kw)
+        t = _TRACE[0]
+        if t is not None and "trace" not in self.extensions:
+            mode, sink = t
+
+            def note(name, info):
+                exc = info.get("exception") if isinstance(info, dict) else None
+                sink.append((name, type(exc).__name__ if exc is not None else None))
+            if mode == "sync":
+                def sync_trace(name, info):
+                    note(name, info)
+                cb = sync_trace
+            else:
+                async def async_trace(name, info):
+                    note(name, info)
+                cb = async_trace
+            self.extensions = dict(self.extensions)
+            self.extensions["trace"] = cb
+    init._mc_trace = True
+    _models.Request.__init__ = init
+
+
 class DiffHarness:
     """Runs harness `cls` of `module` with variant=sync under the explorer's chooser and then with
     variant=async under a chooser that replays exactly the same choices (labels and arities checked)."""
@@ -92,7 +127,13 @@ class DiffHarness:
         self.name = f"{cls}{json.dumps(params, sort_keys=True)}"
 
     def run(self, chooser) -> Execution:
-        ex1 = self.a.run(chooser)
+        _install_trace_seam()
+        tr1, tr2 = [], []
+        _TRACE[0] = ("sync", tr1)
+        try:
+            ex1 = self.a.run(chooser)
+        finally:
+            _TRACE[0] = None
         choices = [p[2] for p in chooser.points]
         labels = [(p[0], p[1]) for p in chooser.points]
         out = Execution()
@@ -101,11 +142,14 @@ class DiffHarness:
         out.notes = {"unmergeable": ex1.notes.get("unmergeable", [])}
         sig = {"harness": "diff", "scenario": self.name[:160]}
         ch2 = Chooser(choices, labels, want_fp=False, horizon=self.horizon)
+        _TRACE[0] = ("async", tr2)
         try:
             ex2 = self.b.run(ch2)
         except ReplayDivergence as e:
             out.violations.append(Violation("C18.choice-points", f"async variant diverges from the sync choice tree: {e} | {self.name}", dict(sig, kind="choice-points")))
             return out
+        finally:
+            _TRACE[0] = None
         if len(ch2.points) != len(choices):
             out.violations.append(Violation("C18.choice-points", f"sync made {len(choices)} environment choices, async {len(ch2.points)} | {self.name}", dict(sig, kind="choice-points")))
             return out
@@ -121,6 +165,11 @@ class DiffHarness:
             out.violations.append(Violation("C18.outcome", f"outcomes differ: sync={ex1.outcome} async={ex2.outcome} | {self.name}", dict(sig, kind="outcome")))
         if _norm(ex1.notes.get("log")) != _norm(ex2.notes.get("log")):
             out.violations.append(Violation("C18.state", f"pool/connection states differ: sync={ex1.notes.get('log')} async={ex2.notes.get('log')} | {self.name}", dict(sig, kind="state")))
+        if tr1 != tr2:
+            i = next((i for i, (x, y) in enumerate(zip(tr1, tr2)) if x != y), min(len(tr1), len(tr2)))
+            out.violations.append(Violation("C18.trace-events", f"trace events differ at #{i}: sync={tr1[i] if i < len(tr1) else None} async={tr2[i] if i < len(tr2) else None} "
+                                            f"(sync {len(tr1)} events, async {len(tr2)}) | {self.name}", dict(sig, kind="trace-events")))
+        out.notes["trace_events"] = len(tr1)
         v1 = sorted(v.oracle for v in ex1.violations)
         v2 = sorted(v.oracle for v in ex2.violations)
         if v1 != v2:
@@ -139,6 +188,12 @@ def diff_specs(tier):
                         continue
                     out.append(make_spec(MOD, "DiffHarness", hmod="mc.props.seqfault", cls="SeqFaultHarness",
                                          params=dict(ct=ct, method=method, warm=warm, consume=consume)))
+        # streamed (iterator / async-iterator) request body, and a server that answers before the upload is complete
+        out.append(make_spec(MOD, "DiffHarness", hmod="mc.props.seqfault", cls="SeqFaultHarness",
+                             params=dict(ct=ct, method="POST", warm=False, consume="request", body="iter")))
+        if tier != "quick" or ct in ("h11", "h2alpn", "tunnel"):
+            out.append(make_spec(MOD, "DiffHarness", hmod="mc.props.seqfault", cls="SeqFaultHarness",
+                                 params=dict(ct=ct, method="POST", warm=True, consume="request", body="iter", early=True)))
     # read segmentations of a few responses (cut bound 2), both consumption styles
     from . import c02
     for fr in (["cl5", "chunk3ext", "close4"] if tier == "quick" else c02.FRAMINGS):
@@ -175,13 +230,21 @@ def check(tier="quick", seed=0, workers=None, only=None):
     specs = common.filt(diff_specs(tier), only)
     st = engine.explore_many(specs, workers=workers, bound=2, seed=seed, max_violations=100, max_execs=200000)
     viols = tv + common.collect(st, ("C18",))
+    # the trace seam must be in effect: one plain execution has to record events on both sides
+    probe = engine.run_once(make_spec(MOD, "DiffHarness", hmod="mc.props.seqfault", cls="SeqFaultHarness",
+                                      params=dict(ct="tunnel", method="GET", warm=False, consume="request")), [], want_fp=False)
+    if "error" in probe or not probe["notes"].get("trace_events"):
+        raise engine.MachineryError(f"C18: the trace seam recorded nothing in a plain tunnelled request: {probe.get('error', probe['notes'])}")
     cov = evidence.stats_coverage(
         st,
         rule=("(a) every line of every file under httpcore/_async translated in memory with scripts/unasync.py and compared with its _sync twin; "
-              "(b) each scenario explored with deviation bound 2 on the sync classes, every execution re-run on the async classes with the same choice sequence; "
+              "(b) each scenario explored with deviation bound 2 on the sync classes, every execution re-run on the async classes with the same choice sequence: "
+              "ledgers, outcomes, pool states, property verdicts and the sequence of `trace` extension events (every request carries a recording trace callback, "
+              "plain function / coroutine function) must agree; "
               "non-trivial = outcome class of an execution with an injected fault or a cut"),
         extra={"programs": tinfo["files"], "disagreements_checked": tinfo["lines"], "translation_samples": tinfo["samples"],
-               "differential_scenarios": len(specs), "differential_executions_pairs": st.evaluations})
+               "differential_scenarios": len(specs), "differential_executions_pairs": st.evaluations,
+               "trace_events_in_probe_execution": probe["notes"].get("trace_events")})
     cov["samples"] = (tinfo["samples"] + cov["samples"])[:8]
     return {"level": "translation_validation", "coverage": cov, "violations": viols,
             "assumptions": ["the translator is scripts/unasync.py as found in /repo; hand-written pairs (_synchronization.py primitives, mock backend) are outside (a) and exercised by (b) and C08/C07 only"]}
